@@ -228,6 +228,25 @@ func GenValid(r *rand.Rand, profile string) *Policy {
 		}
 		p.Groups = append(p.Groups, g)
 	}
+	// an entry with many short alternatives (8 … 70 lists for one syscall, appended or spread over the group)
+	if profile != "names" && profile != "single" && r.Intn(12) == 0 {
+		gi := r.Intn(len(p.Groups))
+		g := &p.Groups[gi]
+		if len(g.WithConds) > 0 {
+			name := g.WithConds[r.Intn(len(g.WithConds))].Name
+			k := []int{8, 20, 63, 64, 65, 70}[r.Intn(6)]
+			spread := r.Intn(2) == 0
+			for i := 0; i < k; i++ {
+				nc := NameConds{Name: name, Conds: []Cond{{Arg: uint32(r.Intn(6)), Op: Ops[r.Intn(len(Ops))], Val: Operand(r)}}}
+				if spread && len(g.WithConds) > 0 {
+					at := r.Intn(len(g.WithConds) + 1)
+					g.WithConds = append(g.WithConds[:at], append([]NameConds{nc}, g.WithConds[at:]...)...)
+				} else {
+					g.WithConds = append(g.WithConds, nc)
+				}
+			}
+		}
+	}
 	// related condition lists for the same syscall in one group (merged into one entry, OR of lists):
 	// exact duplicates, a changed operand, a repeated argument in front (the per-argument last
 	// conditions stay the same), a permutation, a dropped condition
